@@ -14,6 +14,7 @@ use std::panic::{AssertUnwindSafe, catch_unwind};
 
 use rustc_ast::token::{Delimiter, IdentIsRaw, Token, TokenKind};
 use rustc_ast::tokenstream::{TokenStream, TokenStreamIter, TokenTree};
+use rustc_ast::util::parser::ExprPrecedence;
 use rustc_ast::{ast, ptr};
 use rustc_ast_pretty::pprust;
 use rustc_span::{BytePos, DUMMY_SP, Ident, Span, Symbol};
@@ -1188,8 +1189,8 @@ fn next_space(tok: &TokenKind) -> SpaceState {
 }
 
 /// Tries to convert a macro use into a short hand try expression. Returns `None`
-/// when the macro is not an instance of `try!` (or parsing the inner expression
-/// failed).
+/// when the macro is not an instance of `try!` with exactly one argument (or parsing
+/// the inner expression failed).
 pub(crate) fn convert_try_mac(
     mac: &ast::MacCall,
     context: &RewriteContext<'_>,
@@ -1197,10 +1198,26 @@ pub(crate) fn convert_try_mac(
     let path = &pprust::path_to_string(&mac.path);
     if path == "try" || path == "r#try" {
         let ts = mac.args.tokens.clone();
+        let operand = parse_expr(context, ts)?;
+        // `?` binds tighter than every prefix and binary operator, and it would take an
+        // attribute of the operand for its own: keep such an operand in parentheses.
+        let needs_parens =
+            operand.precedence() < ExprPrecedence::Unambiguous || !operand.attrs.is_empty();
+        let operand = if needs_parens {
+            ptr::P(ast::Expr {
+                id: ast::NodeId::root(), // dummy value
+                kind: ast::ExprKind::Paren(operand),
+                span: mac.args.dspan.entire(),
+                attrs: ast::AttrVec::new(),
+                tokens: None,
+            })
+        } else {
+            operand
+        };
 
         Some(ast::Expr {
             id: ast::NodeId::root(), // dummy value
-            kind: ast::ExprKind::Try(parse_expr(context, ts)?),
+            kind: ast::ExprKind::Try(operand),
             span: mac.span(), // incorrect span, but shouldn't matter too much
             attrs: ast::AttrVec::new(),
             tokens: None,
